@@ -15,6 +15,7 @@ PKGS = [
     ("./pkg/protocol/recordlayer", "^TestVerifC18Record$"),
     ("./pkg/protocol/handshake", "^TestVerifC18Handshake$"),
     ("./pkg/protocol/extension", "^TestVerifC18Extension$"),
+    ("./internal/negotiation", "^TestVerifC18Canonicalize$"),
 ]
 
 SITE = {
@@ -49,6 +50,8 @@ SITE = {
     "certificate_request13": "pkg/protocol/handshake/message_certificate_request_13.go:MessageCertificateRequest13.Unmarshal",
     "handshake2": "pkg/protocol/handshake/handshake.go:Handshake.Unmarshal",
     "ext_raw_list": "pkg/protocol/extension/raw.go:ParseList",
+    "canonicalize_client_hello": "internal/negotiation/negotiation.go:validatedClientHello",
+    "canonicalize_server_hello": "internal/negotiation/negotiation.go:validatedServerHello",
 }
 
 # codecs whose encodings are self-delimiting: every proper prefix of a valid encoding must be
@@ -203,7 +206,8 @@ def run(chk):
         terms = [coq_term(c) for c in cmp_cases]
         # one pass: agreement on a modelled input; the (few) others are split into "outside the
         # model" and "mismatch" by a second pass
-        notok, err = vlib.coq_mismatches("c18", IMPORTS, "c18_case", "c18_strict", terms, shard=4000,
+        shard = max(1000, -(-len(terms) // 12))
+        notok, err = vlib.coq_mismatches("c18", IMPORTS, "c18_case", "c18_strict", terms, shard=shard,
                                            scope="uint63_scope")
         badidx, unmod, err2 = None, None, ""
         if notok is not None:
@@ -264,7 +268,7 @@ def run(chk):
         rule="per codec (recordlayer header, handshake header, alert, CCS, application data, ACK, RRC, inner "
              "plaintext, datagram unpackers, RecordLayer, handshake envelope and messages, ...): fixed corpus, "
              "encodings of generated valid values, every truncation point / byte +-1,0,0xff / trailing garbage "
-             "of those, raw random bytes, all byte strings of length <= 1 and (quick: 21-letter alphabet, "
+             "of those, raw random bytes, all byte strings of length <= 1 and (quick: 16-letter alphabet, "
              "thorough: all) length 2 for the small codecs. Each input goes through the implementation's "
              "Unmarshal+Marshal (in-package, recover()-wrapped) and through the Coq model (vm_compute); compared: "
              "accept/reject, canonical field dump, re-encoding. Non-trivial = accepted by the model's decoder; "
